@@ -114,6 +114,7 @@ enum
     CL_STEPLIMIT,
     CL_CONFIG_WHILE_RUNNING,
     CL_NO_STOP,
+    CL_FINE,
 };
 
 const VhSpec kSpec = {
@@ -127,7 +128,7 @@ const VhSpec kSpec = {
       "monitor_first_used_in_later_acquisition", "client_holds_region", "abort", "abort_while_worker_blocked", "abort_while_client_mapped",
       "abort_from_other_thread", "trigger_mode", "averaging", "averaging_2_windows", "fault_camera_frame", "fault_storage_append", "fault_start",
       "fault_fired", "fault_while_source_blocked", "shutdown_reinit", "start_while_running", "device_switch", "stream_toggled", "camera_no_frame_returns",
-      "hardware_id_gaps", "pct_schedule", "preemptions", "step_limit_inconclusive", "configure_while_running", "poll_then_continue_without_stop", nullptr },
+      "hardware_id_gaps", "pct_schedule", "preemptions", "step_limit_inconclusive", "configure_while_running", "poll_then_continue_without_stop", "edge_preemptions", nullptr },
     { "C04 non-trivial: a finite acquisition completed with >=3 wraps of the sink ring AND (sink caught up at a wrap, or source blocked on a full ring, or a monitor lagging >= 1 frame, or write delay > 0)",
       "C05 non-trivial: image bytes % 8 != 0 AND a packet starting right after a wrap or after a partial client consume",
       "C06 non-trivial: >=2 acquisitions AND the monitor registered AND (partial consume, or hold while the ring filled, or first registration in a later acquisition)",
@@ -1594,6 +1595,13 @@ vh_run(const VhTok* tape, size_t n, VhReport* rep)
                     x.sched.mode = vsim::TapeSched::PCT;
                     x.c.cls(CL_PCT);
                 }
+                if (!x.sched.edge_prob && (t.a & 2)) {
+                    // fine profile: preempt inside the code under test, between platform calls
+                    static const unsigned prob[4] = { 16, 48, 128, 255 }, span[8] = { 2, 4, 8, 16, 32, 64, 256, 2048 };
+                    x.sched.edge_prob = prob[(t.a >> 2) & 3];
+                    x.sched.edge_span = span[(t.a >> 4) & 7];
+                    x.sched.edge_seed = vh_mix64(((uint64_t)t.b << 32) | ((uint64_t)t.c << 16) | t.d);
+                }
                 uint16_t w[3] = { t.b, t.c, t.d };
                 for (uint16_t v : w) {
                     if (x.sched.mode == vsim::TapeSched::PCT && x.sched.change_points.size() < 4)
@@ -1733,6 +1741,8 @@ vh_run(const VhTok* tape, size_t n, VhReport* rep)
     vsim::RunResult rr = vsim::run(x.sched, 400000, done, &blocked);
     if (x.sched.preemptions)
         x.c.cls(CL_PREEMPT);
+    if (vsim::edge_preemptions())
+        x.c.cls(CL_FINE);
     if (!x.c.ended) {
         if (rr == vsim::RUN_DEADLOCK || rr == vsim::RUN_QUIET) {
             const vsim::Info& bi = vsim::info(blocked >= 0 ? blocked : 0);
